@@ -15,9 +15,10 @@ CONSTANTS MaxDepth,     \* attempts + block-level steps per path
           Per,          \* exported paths per stratum
           Families      \* stratum key families that are exported
 
-VARIABLES s, tag, hist, eps
-vars == <<s, tag, hist, eps>>
-view == <<s, tag, eps>>
+VARIABLES s, tag, hist, eps,
+          aft      \* blocks of the after-long period that carried no ceremony transaction (the chain ends the epoch with the fifth)
+vars == <<s, tag, hist, eps, aft>>
+view == <<s, tag, eps, aft>>
 
 Base == [st |-> "U", per |-> 0, rv |-> FALSE, on |-> FALSE, psw |-> FALSE, dg |-> FALSE, sw |-> "no", dnew |-> FALSE, und |-> FALSE,
          pen |-> "none", lnk |-> FALSE, stk |-> "none", lck |-> FALSE, rep |-> FALSE, nfl |-> 0, req |-> 0, vtx |-> {},
@@ -34,7 +35,7 @@ InitOf(t) ==
       [] t = "V0" -> Val("V", 0) [] t = "V3" -> Val("V", 3)
       [] t = "H0" -> Val("H", 0) [] t = "H3" -> Val("H", 3)
 
-Init == /\ tag \in Inits /\ s = InitOf(tag) /\ hist = <<>> /\ eps = 0
+Init == /\ tag \in Inits /\ s = InitOf(tag) /\ hist = <<>> /\ eps = 0 /\ aft = 0
 
 \* exploration bounds (not rules): invitations whose exact number the model does not know are used once
 Explored(o) ==
@@ -43,18 +44,23 @@ Explored(o) ==
       [] o.n = "DelegateDX" -> s.dst = "val"
       [] o.n = "EpochEnd"   -> eps < MaxEpochs
       [] OTHER -> TRUE
+\* (a bound of the chain, not a rule of the lifecycle: applyGlobalParams counts the blocks of the after-long period without
+\* ceremony transactions and the block after the fourth one finishes the validation, whatever it carries)
+RoomInAfterLong(o) == (s.per = 4 /\ o.n \in TxOps \cup {"Penalty"}) => aft < 4
 
 EpochOps == {EpochOp(out, inv, rw) : out \in Statuses, inv \in {0, 1}, rw \in BOOLEAN}
 AllOps == {Op(n) : n \in TxOps \cup (BlockOps \ {"EpochEnd"})} \cup EpochOps
 
 Step(o) ==
-    /\ Explored(o) /\ Enabled(s, o)
+    /\ Explored(o) /\ RoomInAfterLong(o) /\ Enabled(s, o)
     /\ LET a == IF o.n \in BlockOps THEN [pool |-> TRUE, block |-> TRUE] ELSE Adm(s, o)
            t == Post(s, o) IN
        /\ s' = t
        /\ hist' = Append(hist, [n |-> o.n, out |-> o.out, inv |-> o.inv, rw |-> o.rw, by |-> Signer(o.n), pool |-> a.pool, block |-> a.block,
                                 post |-> t])
        /\ eps' = IF o.n = "EpochEnd" THEN eps + 1 ELSE eps
+       /\ aft' = IF t.per # 4 \/ s.per # 4 THEN 0
+                 ELSE IF o.n \in Ceremonial /\ a.block THEN 0 ELSE aft + 1
     /\ UNCHANGED tag
 
 Next == Len(hist) < MaxDepth /\ \E o \in AllOps : Step(o)
@@ -83,7 +89,7 @@ N(n) == ToString(n)
 KeyOf(fam, e) ==
     LET o == e.n \o (IF e.n = "EpochEnd" THEN ":" \o e.out ELSE "") \o "|" \o B(e.pool) \o B(e.block) IN
     CASE fam = "A" -> "A|" \o o \o "|" \o s.st \o "|" \o N(s.per)
-      [] fam = "D" -> IF e.n \in {"Delegate", "Undelegate", "KillDelegatorX", "GoOnline", "GoOffline", "Evidence", "Flush", "Kill", "EpochEnd", "DelegateDX", "KillInviteeX"}
+      [] fam = "D" -> IF e.n \in {"Delegate", "Undelegate", "KillDelegatorX", "KillDelegatorXByG", "GoOnline", "GoOffline", "Evidence", "Flush", "Kill", "EpochEnd", "DelegateDX", "KillInviteeX"}
                       THEN "D|" \o o \o "|" \o B(s.dg) \o s.sw \o B(s.dnew) \o B(s.und) ELSE ""
       [] fam = "O" -> IF e.n \in {"GoOnline", "GoOffline", "Flush", "Penalty", "Delegate", "Kill", "EpochEnd", "KillDelegatorX", "KillDelegatorD"}
                       THEN "O|" \o o \o "|" \o B(s.on) \o B(s.psw) \o s.pen \o B(s.rv) \o B(IsPool(s)) ELSE ""
@@ -93,8 +99,12 @@ KeyOf(fam, e) ==
                       THEN "S|" \o o \o "|" \o s.st \o s.stk \o B(s.lck) \o B(s.rep) \o B(e.rw) ELSE ""
       [] fam = "F" -> IF e.n \in {"SubmitFlip", "DeleteFlip", "AnswersHash", "ShortAnswers", "LongAnswers", "Evidence", "EpochEnd"}
                       THEN "F|" \o o \o "|" \o s.st \o N(s.nfl) \o N(s.req) \o N(s.per) \o N(Cardinality(s.vtx)) ELSE ""
-      [] fam = "I" -> IF e.n \in {"InviteF", "KillInviteeF", "ActivateF", "ActivateOther", "Kill", "EpochEnd", "InviteX", "KillInviteeX"}
+      [] fam = "I" -> IF e.n \in {"InviteF", "KillInviteeF", "ActivateF", "ActivateOther", "Kill", "EpochEnd", "InviteX", "InviteXByS", "KillInviteeX", "KillInviteeXByG"}
                       THEN "I|" \o o \o "|" \o s.st \o N(s.xinv) \o s.fst \o B(s.flnk) \o B(s.lnk) \o N(s.iinv) \o N(e.inv) ELSE ""
+
+      \* the steps that run the identity-update block: every combination of what can be pending
+      [] fam = "X" -> IF e.n \in {"Flush", "Kill", "KillInviteeX", "KillDelegatorX", "KillInviteeF", "KillDelegatorD", "EpochEnd"}
+                      THEN "X|" \o o \o "|" \o B(s.on) \o B(s.psw) \o s.pen \o s.sw \o B(s.dg) \o s.dd \o B(s.dq) \o B(s.rv) ELSE ""
 
 ASSUME TLCSet(7, <<>>)
 \* register 7 of the worker: [key -> number of paths printed]
